@@ -801,6 +801,9 @@ impl Check for C19 {
         }
         out.into_iter().map(|s| serde_json::to_value(s).unwrap()).collect()
     }
+    fn attempts(&self) -> u32 {
+        3
+    }
     fn rule(&self) -> String {
         "one run = one seeded scenario: 0-3 configuration layers (global ~/.rip, RIP_CONFIG_HOME, RIP_CONFIG, project rip.json(c) in the workspace or its parent up to the git root; JSON or JSONC) each defining the provider with an inline api_key, an env reference or none, 0-2 headers (secret value, secret with trailing CR / embedded newline / control character, plain) and optionally a default route; 1 in 4 secret-bearing layers is syntactically broken so that the parser stops on or next to the secret line (missing comma, raw control character, truncation, unquoted value, trailing garbage); environment supply RIP_OPENRESPONSES_ENDPOINT/_MODEL (engine-level configuration through the daemon's own from_env) and the key through RIP_OPENRESPONSES_API_KEY / OPENAI_API_KEY / OPENROUTER_API_KEY; an invalid RIP_OPENRESPONSES_TOOL_CHOICE; per-request endpoint overrides; request dumping on or off; endpoint reachable or not; a provider script of 2-6 responses (success, tool calls, HTTP 400-500 whose body echoes the request body, close without response, garbage, connection drop, a call that makes the follow-up fail validation); 2-5 inputs (thread prompt, thread tool envelope that succeeds or fails, thread-less session prompt, GET /config/doctor). The two canaries (API key, header value) must not occur in: any file under the scratch root except the config sources themselves (event log — reported with the frame type —, snapshots, artifacts incl. request dumps, sidecar caches, workspace files, captured process stdout and stderr), any buffer passed to write() on a file path anywhere (seam observer: catches transient files), any router response incl. /config/doctor and the session/thread SSE streams. Reach probes: the secret actually reached the provider stub in the Authorization / custom header. distinct = hash of the scenario; non-trivial = a secret reached the provider or a secret-bearing config file was broken".into()
     }
